@@ -482,20 +482,8 @@ pub fn strategy() -> impl Strategy<Value = Case> {
     ]
 }
 
-pub fn run(run: &Run) {
-    run.rule(
-        "search: arbitrary and low-entropy {D,L,T,01} strings with 0..3 planted patterns (also 70 KB inputs) against a naive first-occurrence search; \
-         parse: junk (pattern scrubbed out by construction; tails that are partial patterns encouraged) ++ message ++ suffix must parse to the same \
-         message and remainder as message ++ suffix, without a filter and with one of 7 filter configurations (kept or FilteredOut alike); stream: \
-         junk0 m1 junk1 ... mk junk_k parsed repeatedly must yield exactly m1..mk (with a filter: one result per message in order, kept = original, \
-         dropped = its payload length); block-boundary straddles: pattern (and a junk-prefixed message) placed from 4 bytes before to 4 bytes behind every \
-         multiple (x1..x3) of every power-of-two block size 16 B .. 2 MiB; non-trivial = \
-         pattern found / junk non-empty / stream of >= 2 messages with junk; distinct by the whole case",
-    );
-    run.assume("'DLT\\x01' has no border, so junk without a full pattern cannot create an earlier occurrence together with the message start");
-    run.regressions(&replay);
-    // the pattern (and a message behind junk) straddling every power-of-two block boundary from 16 bytes to 2 MiB
-    run.enumerate("block-boundary-straddles", 18, true, |b| {
+/// block b of the block-boundary section (a pure function of the block number, so a stuck block can be replayed)
+fn straddle_block(b: u64) -> BlockReport {
         let mut rep = BlockReport::default();
         let block = 16usize << b; // 16 .. 2 MiB
         for mult in [1usize, 2, 3] {
@@ -532,7 +520,22 @@ pub fn run(run: &Run) {
             rep.sample = Some(serde_json::json!({"block": block, "pattern offsets": "block*{1,2,3} - 4 ..= + 4", "cases": "search + junk-prefixed parse"}));
         }
         rep
-    });
+    }
+
+pub fn run(run: &Run) {
+    run.rule(
+        "search: arbitrary and low-entropy {D,L,T,01} strings with 0..3 planted patterns (also 70 KB inputs) against a naive first-occurrence search; \
+         parse: junk (pattern scrubbed out by construction; tails that are partial patterns encouraged) ++ message ++ suffix must parse to the same \
+         message and remainder as message ++ suffix, without a filter and with one of 7 filter configurations (kept or FilteredOut alike); stream: \
+         junk0 m1 junk1 ... mk junk_k parsed repeatedly must yield exactly m1..mk (with a filter: one result per message in order, kept = original, \
+         dropped = its payload length); block-boundary straddles: pattern (and a junk-prefixed message) placed from 4 bytes before to 4 bytes behind every \
+         multiple (x1..x3) of every power-of-two block size 16 B .. 2 MiB; non-trivial = \
+         pattern found / junk non-empty / stream of >= 2 messages with junk; distinct by the whole case",
+    );
+    run.assume("'DLT\\x01' has no border, so junk without a full pattern cannot create an earlier occurrence together with the message start");
+    run.regressions(&replay);
+    // the pattern (and a message behind junk) straddling every power-of-two block boundary from 16 bytes to 2 MiB
+    run.enumerate("block-boundary-straddles", 18, true, straddle_block);
     run.random(
         "resync",
         run.cases(300_000, 5_000_000),
@@ -543,5 +546,12 @@ pub fn run(run: &Run) {
 }
 
 pub fn replay(_section: &str, case: &Json) -> Option<CheckResult> {
+    if let Some(b) = case.get("enum_block").and_then(|b| b.as_u64()) {
+        let rep = straddle_block(b);
+        return Some(match rep.violation {
+            Some((_, v)) => Err(v),
+            None => Ok(Pass::new(true).class("block-boundary-straddles")),
+        });
+    }
     case_from::<Case>(case).map(|c| check(&c))
 }
